@@ -1,6 +1,8 @@
 import GV.Model.Address
+import GV.Proofs.CborLite
 import GV.Gen.AddrConsts
 import GV.Gen.AddrTrailers
+import GV.Gen.AddrSwitches
 /-!
 C05 — Address encodings are mutually consistent.
 -/
@@ -17,6 +19,18 @@ theorem gen_consts :
      GV.Gen.AddrConsts.typeScriptPointer, GV.Gen.AddrConsts.typeKeyNone,
      GV.Gen.AddrConsts.typeScriptNone, GV.Gen.AddrConsts.typeByron, GV.Gen.AddrConsts.typeNoneKey,
      GV.Gen.AddrConsts.typeNoneScript] = [0, 1, 2, 3, 4, 5, 6, 7, 8, 14, 15] := by decide
+
+/-- Regenerated tie: the case lists of the three `switch a.addressType` statements of
+    `populateFromBytes` (re-extracted from the source on every run) are exactly the model's
+    `knownType` / `payKind` / `stakeKind` for every header nibble. -/
+theorem gen_switches : ∀ t, t < 16 →
+    knownType t = GV.Gen.AddrSwitches.knownTypes.contains t ∧
+    decide (payKind t = 0) = GV.Gen.AddrSwitches.payKey.contains t ∧
+    decide (payKind t = 1) = GV.Gen.AddrSwitches.payScript.contains t ∧
+    decide (stakeKind t = 0) = GV.Gen.AddrSwitches.stakeKey.contains t ∧
+    decide (stakeKind t = 1) = GV.Gen.AddrSwitches.stakeScript.contains t ∧
+    decide (stakeKind t = 2) = GV.Gen.AddrSwitches.stakePointer.contains t := by
+  decide
 
 /-- every whitelisted trailer is non-empty (an exact-length address never carries extra data) -/
 theorem trailers_nonempty : ∀ t ∈ GV.Gen.AddrTrailers.trailers, t ≠ [] := by decide
@@ -288,6 +302,203 @@ example :
     Valid [] a ∧ (match parse [] (bytes a) with | .ok b => decide (b = a) | .error _ => false) = true := by
   refine ⟨⟨by decide, by decide, ⟨by decide, by decide⟩, ⟨by decide, by decide, by decide, by decide⟩, Or.inl rfl⟩, by decide⟩
 
+
+-- ------------------------------------------------------------------ bytes ∘ parse (minimal pointers)
+
+/-- `readVarUint` without the 64-bit wrap: the number the bytes denote -/
+def readVarU : Bytes → Nat → Option (Nat × Bytes)
+  | [], _ => none
+  | b :: r, acc =>
+    if b.toNat < 128 then some (acc * 128 + b.toNat % 128, r)
+    else readVarU r (acc * 128 + b.toNat % 128)
+
+theorem readVarU_ge : ∀ (b : Bytes) (acc n : Nat) (r : Bytes), readVarU b acc = some (n, r) → acc ≤ n
+  | [], _, _, _, h => by simp [readVarU] at h
+  | x :: t, acc, n, r, h => by
+    unfold readVarU at h
+    split at h
+    · cases h; omega
+    · have := readVarU_ge t _ n r h; omega
+
+/-- when the denoted number fits 64 bits the decoder returns exactly it -/
+theorem readVar_eq_U : ∀ (b : Bytes) (acc n : Nat) (r : Bytes),
+    readVarU b acc = some (n, r) → n < two64 → readVar b acc = some (n, r)
+  | [], _, _, _, h, _ => by simp [readVarU] at h
+  | x :: t, acc, n, r, h, hn => by
+    unfold readVarU at h
+    unfold readVar
+    split at h
+    · rename_i hx
+      cases h
+      simp only [hx, ↓reduceIte, Nat.mod_eq_of_lt hn]
+    · rename_i hx
+      have hge := readVarU_ge t _ n r h
+      have : (acc * 128 + x.toNat % 128) % two64 = acc * 128 + x.toNat % 128 :=
+        Nat.mod_eq_of_lt (by omega)
+      simp only [hx, ↓reduceIte, this]
+      exact readVar_eq_U t _ n r h hn
+
+/-- no redundant leading group: the first byte is not 0x80 -/
+def noLeadZero : Bytes → Prop
+  | [] => True
+  | x :: _ => x.toNat ≠ 128
+
+theorem contBytes_step (acc g : Nat) (hg : g < 128) (h : acc * 128 + g ≠ 0) :
+    contBytes (acc * 128 + g) = contBytes acc ++ [UInt8.ofNat (g + 128)] := by
+  rw [contBytes]
+  have h1 : (acc * 128 + g) / 128 = acc := by omega
+  have h2 : (acc * 128 + g) % 128 = g := by omega
+  simp only [h, ↓reduceDIte, h1, h2]
+
+theorem write_of_readU : ∀ (b : Bytes) (acc n : Nat) (r : Bytes),
+    readVarU b acc = some (n, r) → (acc ≠ 0 ∨ noLeadZero b) →
+    contBytes acc ++ b = contBytes (n / 128) ++ [UInt8.ofNat (n % 128)] ++ r
+  | [], _, _, _, h, _ => by simp [readVarU] at h
+  | x :: t, acc, n, r, h, hc => by
+    have hx256 : x.toNat < 256 := x.toNat_lt
+    unfold readVarU at h
+    split at h
+    · rename_i hx
+      cases h
+      have h1 : (acc * 128 + x.toNat % 128) / 128 = acc := by omega
+      have h2 : (acc * 128 + x.toNat % 128) % 128 = x.toNat := by omega
+      rw [h1, h2, UInt8.ofNat_toNat]
+      simp
+    · rename_i hx
+      have hne : acc * 128 + x.toNat % 128 ≠ 0 := by
+        rcases hc with hc | hc
+        · omega
+        · simp only [noLeadZero] at hc; omega
+      have ih := write_of_readU t _ n r h (Or.inl hne)
+      rw [contBytes_step acc (x.toNat % 128) (by omega) hne] at ih
+      have hx' : UInt8.ofNat (x.toNat % 128 + 128) = x := by
+        have : x.toNat % 128 + 128 = x.toNat := by omega
+        rw [this, UInt8.ofNat_toNat]
+      rw [hx'] at ih
+      rw [← ih]; simp
+
+/-- A varint that denotes a 64-bit number without a redundant leading group is exactly what the
+    encoder writes for that number. -/
+theorem varint_minimal (b : Bytes) (n : Nat) (r : Bytes) (hU : readVarU b 0 = some (n, r))
+    (hn : n < two64) (hl : noLeadZero b) : writeVar n ++ r = b := by
+  have := write_of_readU b 0 n r hU (Or.inr hl)
+  have hlt : n / 128 < 128 ^ 9 := by
+    unfold two64 at hn
+    rw [Nat.div_lt_iff_lt_mul (by decide)]; omega
+  unfold writeVar
+  rw [writeVarGo_eq 9 _ _ hlt, ← this]
+  simp [contBytes]
+
+/-- `k` consecutive minimal varints of 64-bit numbers -/
+def MinimalVars : Nat → Bytes → Prop
+  | 0, _ => True
+  | k + 1, b => noLeadZero b ∧ ∃ n r, readVarU b 0 = some (n, r) ∧ n < two64 ∧ MinimalVars k r
+
+theorem readPtr_minimal (b : Bytes) (p : Ptr) (r : Bytes) (h : readPtr b = some (p, r))
+    (hm : MinimalVars 3 b) : writePtr p ++ r = b := by
+  obtain ⟨l1, n1, r1, u1, b1, l2, n2, r2, u2, b2, l3, n3, r3, u3, b3, _⟩ := hm
+  unfold readPtr at h
+  rw [readVar_eq_U _ _ _ _ u1 b1] at h
+  simp only at h
+  rw [readVar_eq_U _ _ _ _ u2 b2] at h
+  simp only at h
+  rw [readVar_eq_U _ _ _ _ u3 b3] at h
+  simp only [Option.some.injEq, Prod.mk.injEq] at h
+  obtain ⟨hp, hr⟩ := h
+  subst hp; subst hr
+  unfold writePtr
+  simp only [List.append_assoc]
+  rw [varint_minimal _ _ _ u3 b3 l3, varint_minimal _ _ _ u2 b2 l2, varint_minimal _ _ _ u1 b1 l1]
+
+theorem parsePay_inv (t : Nat) (rest : Bytes) (pay : Pay) (r1 : Bytes)
+    (h : parsePay t rest = .ok (pay, r1)) :
+    payBytes pay ++ r1 = rest ∧ (payKind t ≠ 2 → r1 = rest.drop 28) := by
+  unfold parsePay at h
+  split at h
+  · rename_i hk; cases h; exact ⟨rfl, fun hh => absurd hk hh⟩
+  · split at h
+    · cases h
+    · split at h <;> (cases h; exact ⟨List.take_append_drop 28 rest, fun _ => rfl⟩)
+
+theorem parseStake_inv (t : Nat) (r1 : Bytes) (st : Stake) (r2 : Bytes)
+    (h : parseStake t r1 = .ok (st, r2)) (hm : stakeKind t = 2 → MinimalVars 3 r1) :
+    stakeBytes st ++ r2 = r1 := by
+  unfold parseStake at h
+  split at h
+  · cases h; rfl
+  · split at h
+    · rename_i hk
+      split at h
+      · cases h
+      · cases h
+        exact readPtr_minimal r1 _ _ (by assumption) (hm hk)
+    · split at h
+      · cases h
+      · split at h <;> (cases h; exact List.take_append_drop 28 r1)
+
+set_option maxRecDepth 20000 in
+theorem header_inv (h0 : UInt8) (pay : Pay) (st : Stake) (ex : Bytes) :
+    header ⟨h0.toNat / 16, h0.toNat % 16, pay, st, ex⟩ = h0 := by
+  unfold header
+  have key : ∀ n, n < 256 → (n / 16 * 16) % 256 ||| (n % 16 % 16) = n := by decide
+  simp only [key h0.toNat h0.toNat_lt, UInt8.ofNat_toNat]
+
+theorem stakeKind_two (t : Nat) (h : stakeKind t = 2) : payKind t ≠ 2 := by
+  unfold stakeKind at h
+  unfold payKind
+  split at h
+  · cases h
+  · split at h
+    · cases h
+    · split at h
+      · rename_i h45
+        rcases h45 with h4 | h5
+        · subst h4; decide
+        · subst h5; decide
+      · cases h
+
+/-- **bytes ∘ parse = id** on accepted bytes, given minimal pointer varints (pointer types only;
+    every other type unconditionally). -/
+theorem bytes_parse (wl : List Bytes) (b : Bytes) (a : Addr) (h : parse wl b = .ok a)
+    (hm : ∀ h0 rest, b = h0 :: rest → stakeKind (h0.toNat / 16) = 2 → MinimalVars 3 (rest.drop 28)) :
+    bytes a = b := by
+  cases b with
+  | nil => simp [parse] at h
+  | cons h0 rest =>
+    simp only [parse] at h
+    split at h
+    · cases h
+    · split at h
+      · cases h
+      · split at h
+        · cases h
+        · split at h
+          · cases h
+          · rename_i pay r1 hp
+            split at h
+            · cases h
+            · rename_i stake r2 hs
+              obtain ⟨e1, e1'⟩ := parsePay_inv _ _ _ _ hp
+              have e2 := parseStake_inv _ _ _ _ hs (fun hk => by
+                rw [e1' (stakeKind_two _ hk)]; exact hm h0 rest rfl hk)
+              split at h
+              · rename_i hr
+                cases h
+                unfold bytes
+                simp only [header_inv, List.append_nil]
+                rw [hr] at e2; simp only [List.append_nil] at e2
+                rw [e2, e1]
+              · split at h
+                · cases h
+                  unfold bytes
+                  simp only [header_inv]
+                  rw [List.append_assoc, e2, e1]
+                · cases h
+
+/-- Non-vacuity: minimal pointer bytes at the varint boundaries satisfy the hypothesis. -/
+example : MinimalVars 3 [0x81, 0xff, 0xff, 0xff, 0xff, 0xff, 0xff, 0xff, 0xff, 0x7f, 0x81, 0x00, 0x00] := by
+  refine ⟨by simp [noLeadZero], _, _, rfl, by decide, by simp [noLeadZero], _, _, rfl, by decide, by simp [noLeadZero], _, _, rfl, by decide, trivial⟩
+
 -- ------------------------------------------------------------------ text form
 
 /-- Text parsing never accepts a bech32 prefix that does not match the address, and never
@@ -335,12 +546,285 @@ theorem tagContent_not_ok (r : Bytes) (a : ByronAddr) : tagContent r ≠ Sum.inl
   repeat' split
   all_goals (intro h; cases h)
 
+theorem payload_hash_len (p : Bytes) (a : ByronAddr) (h : parsePayload p = .ok a) :
+    a.hash.length = 28 := by
+  unfold parsePayload at h
+  repeat' split at h
+  all_goals first | (cases h; done) | skip
+  all_goals (cases h; simp only at *; omega)
+
 /-- Byron: an accepted address has a 28-byte root. -/
 theorem byron_hash_len (crc : Bytes → Nat) (b : Bytes) (a : ByronAddr)
     (h : parseByron crc b = .ok a) : a.hash.length = 28 := by
   unfold parseByron at h
   repeat' split at h
   all_goals first | (cases h; done) | skip
-  all_goals (cases h; first | (exfalso; exact tagContent_not_ok _ _ (by assumption)) | (simp only at *; omega))
+  all_goals first
+    | exact payload_hash_len _ _ h
+    | (exfalso; subst h; exact tagContent_not_ok _ _ (by assumption))
+
+/-- Byron: an accepted address carries the CRC-32 of its payload and the tag number 24. -/
+theorem byron_crc_checked (crc : Bytes → Nat) (b : Bytes) (a : ByronAddr)
+    (h : parseByron crc b = .ok a) :
+    ∃ r0 r1 payload r2, readHead b = some (4, .val 2, r0) ∧ readHead r0 = some (6, .val 24, r1) ∧
+      tagContent r1 = .inr (payload, r2) ∧ readUint r2 = some (crc payload, []) ∧
+      parsePayload payload = .ok a := by
+  unfold parseByron at h
+  split at h
+  · rename_i r0 hr0
+    split at h
+    · rename_i tag r1 hr1
+      split at h
+      · rename_i _ e he
+        exfalso; subst h; exact tagContent_not_ok _ _ he
+      · rename_i payload r2 htc
+        split at h
+        · cases h
+        · rename_i chk r3 hu
+          split at h
+          · cases h
+          · split at h
+            · cases h
+            · rename_i hr3
+              split at h
+              · cases h
+              · rename_i htag
+                split at h
+                · cases h
+                · rename_i hchk
+                  have e3 : r3 = [] := by simpa using hr3
+                  have et : tag = 24 := by simpa using htag
+                  have ec : chk = crc payload := by simpa using hchk
+                  subst e3; subst et; subst ec
+                  exact ⟨r0, r1, payload, r2, hr0, hr1, htc, hu, h⟩
+    · cases h
+  · cases h
+
+-- ------------------------------------------------------------------ Byron round trip
+
+section ByronRT
+open GV.Proofs.CborLite (readHead_head readBytes_enc readUint_head head_length)
+
+theorem head_len_le (m n : Nat) : (head m n).length ≤ 9 := by
+  rw [head_length]; repeat' split
+  all_goals omega
+
+theorem head_ne_nil (m n : Nat) : (head m n).isEmpty = false := by
+  have : 0 < (head m n).length := by rw [head_length]; repeat' split
+                                     all_goals omega
+  cases h : head m n with
+  | nil => rw [h] at this; simp at this
+  | cons _ _ => rfl
+
+/-- a well-formed Byron address value: 28-byte root, attribute payload and sizes within CBOR /
+    uint32 limits -/
+def ByronValid (a : ByronAddr) : Prop :=
+  a.hash.length = 28 ∧ a.attrPayload.length < 4294967296 ∧
+  (∀ n, a.network = some n → n < 4294967296) ∧ a.btype < GV.Proofs.CborLite.two64
+
+theorem attrs_p (ap rest : Bytes) (h : ap.length < GV.Proofs.CborLite.two64) :
+    readAttrs 1 ([0x01] ++ (encBytes ap ++ rest)) = some (ap, none, rest) := by
+  have h01 : ([0x01] : Bytes) = head 0 1 := rfl
+  unfold readAttrs
+  rw [h01, readUint_head 1 (by decide)]
+  simp only
+  rw [readBytes_enc _ h]
+  simp [readAttrs]
+
+theorem attrs_n (p0 : Bytes) (n : Nat) (rest : Bytes) :
+    readAttrs 1 ([0x02] ++ (encBytes (head 0 n) ++ rest)) = some ([], some (head 0 n), rest) := by
+  have h02 : ([0x02] : Bytes) = head 0 2 := rfl
+  have hl : (head 0 n).length < GV.Proofs.CborLite.two64 := by
+    have := head_len_le 0 n; unfold GV.Proofs.CborLite.two64; omega
+  unfold readAttrs
+  rw [h02, readUint_head 2 (by decide)]
+  simp only
+  rw [readBytes_enc _ hl]
+  simp [readAttrs]
+
+theorem attrs_pn (ap : Bytes) (n : Nat) (rest : Bytes) (h : ap.length < GV.Proofs.CborLite.two64) :
+    readAttrs 2 ([0x01] ++ (encBytes ap ++ ([0x02] ++ (encBytes (head 0 n) ++ rest))))
+      = some (ap, some (head 0 n), rest) := by
+  have h01 : ([0x01] : Bytes) = head 0 1 := rfl
+  unfold readAttrs
+  rw [h01, readUint_head 1 (by decide)]
+  simp only
+  rw [readBytes_enc _ h]
+  simp only
+  rw [attrs_n [] n rest]
+  simp
+
+/-- what `encAttrs` writes, `readAttrs` reads back -/
+theorem encAttrs_read (a : ByronAddr) (hv : ByronValid a) (rest : Bytes) :
+    ∃ cnt body, encAttrs a = head 5 cnt ++ body ∧ cnt < GV.Proofs.CborLite.two64 ∧
+      readAttrs cnt (body ++ rest) = some (a.attrPayload, a.network.map (fun n => head 0 n), rest) := by
+  obtain ⟨_, hap, _, _⟩ := hv
+  have hapl : a.attrPayload.length < GV.Proofs.CborLite.two64 := by
+    unfold GV.Proofs.CborLite.two64; omega
+  cases hn : a.network with
+  | none =>
+    by_cases he : a.attrPayload.isEmpty = true
+    · have e0 : a.attrPayload = [] := List.isEmpty_iff.mp he
+      refine ⟨0, [], ?_, by decide, ?_⟩
+      · simp [encAttrs, hn, he]
+      · simp [readAttrs, e0]
+    · refine ⟨1, [0x01] ++ encBytes a.attrPayload, ?_, by decide, ?_⟩
+      · simp [encAttrs, hn, he]
+      · rw [List.append_assoc]; simpa using attrs_p a.attrPayload rest hapl
+  | some n =>
+    by_cases he : a.attrPayload.isEmpty = true
+    · have e0 : a.attrPayload = [] := List.isEmpty_iff.mp he
+      refine ⟨1, [0x02] ++ encBytes (head 0 n), ?_, by decide, ?_⟩
+      · simp [encAttrs, hn, he]
+      · rw [List.append_assoc, e0]; simpa using attrs_n [] n rest
+    · refine ⟨2, [0x01] ++ encBytes a.attrPayload ++ ([0x02] ++ encBytes (head 0 n)), ?_, by decide, ?_⟩
+      · simp [encAttrs, hn, he]
+      · have := attrs_pn a.attrPayload n rest hapl
+        simpa [List.append_assoc] using this
+
+/-- the tag content decodes back to the address value -/
+theorem byron_payload_roundtrip (a : ByronAddr) (hv : ByronValid a) :
+    parsePayload (byronPayload a) = .ok a := by
+  obtain ⟨cnt, body, hea, hcnt, hra⟩ := encAttrs_read a hv (head 0 a.btype)
+  obtain ⟨hh, hap, hnet, hbt⟩ := hv
+  have h83 : ([0x83] : Bytes) = head 4 3 := rfl
+  unfold parsePayload byronPayload
+  rw [hea]
+  simp only [h83, List.append_assoc]
+  rw [readHead_head 4 3 (by decide) (by decide)]
+  simp only
+  rw [readBytes_enc _ (by rw [hh]; decide)]
+  simp only
+  rw [readHead_head 5 _ (by decide) hcnt]
+  simp only
+  rw [hra]
+  simp only
+  rw [← List.append_nil (head 0 a.btype), readUint_head _ hbt]
+  simp only [hh, ne_eq, not_true_eq_false, ↓reduceIte]
+  cases hn : a.network with
+  | none => cases a; simp_all
+  | some n =>
+    simp only [Option.map_some, head_ne_nil, Bool.false_eq_true, ↓reduceIte]
+    have hn32 := hnet n hn
+    rw [← List.append_nil (head 0 n), readUint_head n (by unfold GV.Proofs.CborLite.two64; omega)]
+    have : ¬ n ≥ 4294967296 := by omega
+    simp only [this, ↓reduceIte]
+    cases a; simp_all
+
+theorem encBytes_len_le (x : Bytes) : (encBytes x).length ≤ 9 + x.length := by
+  unfold encBytes
+  have := head_len_le 2 x.length
+  simp only [List.length_append]; omega
+
+theorem encAttrs_len_le (a : ByronAddr) : (encAttrs a).length ≤ 50 + a.attrPayload.length := by
+  unfold encAttrs
+  have l0 := head_len_le 5 ((if a.attrPayload.isEmpty then 0 else 1) + (if a.network.isSome then 1 else 0))
+  have l1 := encBytes_len_le a.attrPayload
+  cases hn : a.network with
+  | none =>
+    by_cases he : a.attrPayload.isEmpty = true
+    · simp only [hn, he, ↓reduceIte, List.length_append, List.length_nil] at l0 ⊢; omega
+    · simp only [hn, he, Bool.false_eq_true, ↓reduceIte, List.length_append, List.length_cons,
+        List.length_nil] at l0 ⊢; omega
+  | some n =>
+    have l2 := encBytes_len_le (head 0 n)
+    have l3 := head_len_le 0 n
+    by_cases he : a.attrPayload.isEmpty = true
+    · simp only [hn, he, ↓reduceIte, List.length_append, List.length_cons, List.length_nil] at l0 ⊢; omega
+    · simp only [hn, he, Bool.false_eq_true, ↓reduceIte, List.length_append, List.length_cons,
+        List.length_nil] at l0 ⊢; omega
+
+theorem byronPayload_len (a : ByronAddr) (hv : ByronValid a) :
+    (byronPayload a).length < GV.Proofs.CborLite.two64 := by
+  obtain ⟨hh, hap, _, _⟩ := hv
+  unfold byronPayload
+  have l1 := encBytes_len_le a.hash
+  have l2 := encAttrs_len_le a
+  have l3 := head_len_le 0 a.btype
+  simp only [List.length_append, List.length_cons, List.length_nil]
+  unfold GV.Proofs.CborLite.two64
+  omega
+
+/-- **Byron round trip**: parsing the bytes of a Byron address gives the address back, for every
+    CRC function with 32-bit results (`crc32.ChecksumIEEE` is a primitive). -/
+theorem byron_roundtrip (crc : Bytes → Nat) (hcrc : ∀ p, crc p < 4294967296) (a : ByronAddr)
+    (hv : ByronValid a) : parseByron crc (byronBytes crc a) = .ok a := by
+  have h82 : ([0x82, 0xd8, 0x18] : Bytes) = head 4 2 ++ head 6 24 := rfl
+  unfold parseByron byronBytes
+  simp only [h82, List.append_assoc]
+  rw [readHead_head 4 2 (by decide) (by decide)]
+  simp only
+  rw [readHead_head 6 24 (by decide) (by decide)]
+  simp only
+  have htc : tagContent (encBytes (byronPayload a) ++ head 0 (crc (byronPayload a))) =
+      .inr (byronPayload a, head 0 (crc (byronPayload a))) := by
+    unfold tagContent encBytes
+    rw [List.append_assoc, readHead_head 2 _ (by decide) (byronPayload_len a hv)]
+    simp [List.take_left' rfl, List.drop_left' rfl]
+  rw [htc]
+  simp only
+  have hc := hcrc (byronPayload a)
+  rw [← List.append_nil (head 0 (crc (byronPayload a))),
+    readUint_head _ (by unfold GV.Proofs.CborLite.two64; omega)]
+  have : ¬ crc (byronPayload a) ≥ 4294967296 := by omega
+  simp only [this, ↓reduceIte, ne_eq, not_true_eq_false]
+  exact byron_payload_roundtrip a hv
+
+/-- **Bad checksum is rejected**: the same bytes with any other 32-bit checksum. -/
+theorem byron_bad_crc_rejected (crc : Bytes → Nat) (a : ByronAddr) (hv : ByronValid a) (chk : Nat)
+    (h32 : chk < 4294967296) (hne : chk ≠ crc (byronPayload a)) :
+    parseByron crc ([0x82, 0xd8, 0x18] ++ encBytes (byronPayload a) ++ head 0 chk) = .err .byronCrc := by
+  have h82 : ([0x82, 0xd8, 0x18] : Bytes) = head 4 2 ++ head 6 24 := rfl
+  unfold parseByron
+  simp only [h82, List.append_assoc]
+  rw [readHead_head 4 2 (by decide) (by decide)]
+  simp only
+  rw [readHead_head 6 24 (by decide) (by decide)]
+  simp only
+  have htc : tagContent (encBytes (byronPayload a) ++ head 0 chk) = .inr (byronPayload a, head 0 chk) := by
+    unfold tagContent encBytes
+    rw [List.append_assoc, readHead_head 2 _ (by decide) (byronPayload_len a hv)]
+    simp [List.take_left' rfl, List.drop_left' rfl]
+  rw [htc]
+  simp only
+  rw [← List.append_nil (head 0 chk), readUint_head _ (by unfold GV.Proofs.CborLite.two64; omega)]
+  have : ¬ chk ≥ 4294967296 := by omega
+  simp only [this, ↓reduceIte, ne_eq, not_true_eq_false, hne, not_false_eq_true]
+
+end ByronRT
+
+-- ------------------------------------------------------------------ text round trips (under the codec laws)
+
+/-- **bech32 round trip.**  `String()` is `bech32Enc (hrp a) (bytes a)`; the law of the codec —
+    decoding that string yields `(hrp a, bytes a)` — is the hypothesis `hlaw` on the primitive
+    results for the string.  Then `NewAddress (String a) = a` for every valid address. -/
+theorem text_roundtrip (wl : List Bytes) (crc : Bytes → Nat) (a : Addr) (hv : Valid wl a)
+    (p : TextPrims) (hlaw : p.bech32 = some (hrp a, bytes a)) (hconv : p.convFail = false) :
+    newAddress wl crc p = .shelley a := by
+  have hpb := parse_bytes wl a hv
+  obtain ⟨hk, hn, _⟩ := hv
+  obtain ⟨h1, _⟩ := header_facts a hk hn
+  have h8 : ¬ (header a).toNat / 16 = 8 := by
+    rw [h1]; intro h; rw [h] at hk; simp [knownType] at hk
+  unfold newAddress
+  simp only [hconv, Bool.false_eq_true, ↓reduceIte, hlaw]
+  unfold bytes at hpb ⊢
+  simp only [h8, ↓reduceIte, hpb]
+
+/-- **base58 round trip for Byron.**  `String()` is `base58Enc (byronBytes a)`; laws of the codec as
+    hypotheses: the string is not bech32, has no Shelley prefix, and `base58Dec` inverts `base58Enc`. -/
+theorem byron_text_roundtrip (wl : List Bytes) (crc : Bytes → Nat) (hcrc : ∀ p, crc p < 4294967296)
+    (a : ByronAddr) (hv : ByronValid a) (p : TextPrims)
+    (h1 : p.bech32 = none) (h2 : p.convFail = false) (h3 : p.shelleyPrefix = false)
+    (hlaw : p.base58 = byronBytes crc a) :
+    newAddress wl crc p = .byron (.ok a) := by
+  unfold newAddress
+  simp only [h2, Bool.false_eq_true, ↓reduceIte, h1, h3, hlaw]
+  have hb : byronBytes crc a = 0x82 :: ([0xd8, 0x18] ++ encBytes (byronPayload a) ++ head 0 (crc (byronPayload a))) := rfl
+  rw [hb]
+  simp only [List.isEmpty_cons, Bool.false_eq_true, ↓reduceIte]
+  have : (0x82 : UInt8).toNat / 16 = 8 := by decide
+  simp only [this, ↓reduceIte]
+  rw [← hb, byron_roundtrip crc hcrc a hv]
 
 end GV.Props.C05
